@@ -28,6 +28,9 @@ type ctx struct {
 	si     *stInfo
 	now    uint32 // the node's (virtual) clock, whole seconds
 	skip   bool   // set by an operator that has nothing to do on this candidate
+	// refused: the real assembler does not package the transaction list the operator asked for (there
+	// is then no consistent block to offer; counted, the operator counts as reached)
+	refused bool
 }
 
 func flip(h common.Hash) common.Hash { h[7] ^= 0x40; return h }
@@ -162,7 +165,7 @@ func ops() []op {
 		}
 		nb, inv, err := c.t.f.Make(node.BlockSpec{Parent: c.parent, Miner: miner, Time: tm, Txs: cl, Extra: b.Header.Extra, NoSave: true})
 		if err != nil || len(inv) > 0 || len(nb.Txs) != len(txs) {
-			c.skip = true // the assembler itself does not package it: nothing to offer
+			c.skip, c.refused = true, true // the assembler itself does not package it: nothing to offer
 			return
 		}
 		*b = *node.Wire(nb)
@@ -210,6 +213,44 @@ func ops() []op {
 		sub := node.Transfer(node.User(2), node.User(0).Addr, node.Lemo(1), uint64(b.Header.Time-1))
 		return plus(b, node.Box(node.User(0), uint64(b.Header.Time+100), sub))
 	})
+	// well-formedness of a packaged transaction (field limits of the protocol): message <= 1024 bytes of
+	// valid UTF-8, recipient name <= 100 characters of [A-Za-z0-9_.-], a transfer has a recipient, a box
+	// holds no box and no transaction that expires before the box does
+	wf := func(toName, msg string, b *types.Block) *types.Transaction {
+		tx := types.NewTransaction(node.User(2).Addr, node.User(0).Addr, node.Lemo(1), 2000000, node.GasPrice, nil, params.OrdinaryTx, node.ChainID, uint64(b.Header.Time+100), toName, msg)
+		return node.SignWith(tx, node.User(2).Priv)
+	}
+	executed("tx-message-1024-bytes(executed,valid)", func(b *types.Block, c *ctx) types.Transactions {
+		return plus(b, wf("", strings.Repeat("m", 1024), b))
+	})
+	executed("tx-message-1025-bytes(executed)", func(b *types.Block, c *ctx) types.Transactions {
+		return plus(b, wf("", strings.Repeat("m", 1025), b))
+	})
+	executed("tx-message-invalid-utf8(executed)", func(b *types.Block, c *ctx) types.Transactions {
+		return plus(b, wf("", "a\xffb", b))
+	})
+	executed("tx-toName-100-chars(executed,valid)", func(b *types.Block, c *ctx) types.Transactions {
+		return plus(b, wf(strings.Repeat("n", 100), "", b))
+	})
+	executed("tx-toName-101-chars(executed)", func(b *types.Block, c *ctx) types.Transactions {
+		return plus(b, wf(strings.Repeat("n", 101), "", b))
+	})
+	executed("tx-toName-illegal-character(executed)", func(b *types.Block, c *ctx) types.Transactions {
+		return plus(b, wf("bob smith", "", b))
+	})
+	executed("transfer-without-recipient(executed)", func(b *types.Block, c *ctx) types.Transactions {
+		tx := types.NoReceiverTransaction(node.User(2).Addr, node.Lemo(1), 2000000, node.GasPrice, nil, params.OrdinaryTx, node.ChainID, uint64(b.Header.Time+100), "", "")
+		return plus(b, node.SignWith(tx, node.User(2).Priv))
+	})
+	executed("box-sub-tx-expires-before-the-box(executed)", func(b *types.Block, c *ctx) types.Transactions {
+		sub := node.Transfer(node.User(2), node.User(0).Addr, node.Lemo(1), uint64(b.Header.Time+50))
+		return plus(b, node.Box(node.User(0), uint64(b.Header.Time+100), sub))
+	})
+	executed("box-inside-a-box(executed)", func(b *types.Block, c *ctx) types.Transactions {
+		sub := node.Transfer(node.User(2), node.User(0).Addr, node.Lemo(1), uint64(b.Header.Time+200))
+		inner := node.Box(node.User(1), uint64(b.Header.Time+200), sub)
+		return plus(b, node.Box(node.User(0), uint64(b.Header.Time+100), inner))
+	})
 	// body: change logs
 	add("logs", "logs-dropped", func(b *types.Block, c *ctx) { b.ChangeLogs = nil })
 	add("logs", "log-first-dropped", func(b *types.Block, c *ctx) {
@@ -256,7 +297,7 @@ func ops() []op {
 			}
 			remake(b, c, key(kn), b.Header.Time, b.Txs)
 		})
-		if kn == "cs2" || kn == "outsider" {
+		if kn == "cs1" || kn == "outsider" {
 			continue // never a deputy in either tree: no slot of its own
 		}
 		add("signer", "mined-by:"+kn+"@its-own-slot", func(b *types.Block, c *ctx) {
@@ -334,8 +375,8 @@ func ops() []op {
 	// each with the DeputyRoot kept AND recomputed for the altered list) ----
 	snap := func(name string, f func(l types.DeputyNodes, c *ctx) types.DeputyNodes) {
 		add("snapshot", name, func(b *types.Block, c *ctx) {
-			if !isSnapshotHeight(c.base.Height()) {
-				c.skip = true
+			if !isSnapshotHeight(c.base.Height()) || len(b.DeputyNodes) != nDep {
+				c.skip = true // (an earlier operator of a pair may have replaced the block by one without a list)
 				return
 			}
 			b.DeputyNodes = f(copyNodes(b.DeputyNodes), c)
@@ -372,7 +413,7 @@ func ops() []op {
 		l[1], l[2] = l[2], l[1]
 		return l
 	})
-	snap("swap-1-2(tied pair, ranks renumbered)", func(l types.DeputyNodes, c *ctx) types.DeputyNodes {
+	snap("swap-1-2(ranks renumbered)", func(l types.DeputyNodes, c *ctx) types.DeputyNodes {
 		l[1], l[2] = l[2], l[1]
 		return renumber(l)
 	})
@@ -489,7 +530,7 @@ func resign(b *types.Block, mode string, c *ctx) {
 		return
 	case "resign-deputy-of-the-other-term":
 		if c.base.Height() < termDur+interim+1 {
-			k = cs(0) // elected at the snapshot of tree B, never a deputy of the genesis term
+			k = cs(2) // elected at the snapshot of tree B, never a deputy of the genesis term
 		} else {
 			k = node.Deputy(2) // genesis deputy that was not re-elected
 		}
